@@ -121,26 +121,16 @@ Theorem C05_rl_verifies :
 Proof. exact rl_verifies. Qed.
 Print Assumptions C05_rl_verifies.
 
-(* ---- non-vacuity ---- *)
-Theorem C05_nonvacuous_csr : wf_csr ex_csr /\
-  exists tbs a f, build_csr_tbs ex_csr = Some (tbs, a) /\
-  parse_csr (emit (seq [tbs; a; Prim 0 3 [0; 1; 2]])) = Some f /\
-  cf_ips f = [[10; 1; 2; 3]] /\ length (cf_exts f) = 2%nat /\
-  existsb ext_crit (cf_exts f) = true.
+(* ---- non-vacuity: inputs inside the domains that build, parse and show the
+   boundary behaviours (closed boolean checks, see proof/C05Proofs.v) ---- *)
+Theorem C05_nonvacuous_csr : wf_csr ex_csr /\ ex_csr_check = true.
 Proof. exact (conj ex_csr_wf ex_csr_builds). Qed.
 Print Assumptions C05_nonvacuous_csr.
 
-Theorem C05_nonvacuous_crl : wf_crl ex_crl /\
-  exists tbs a f, build_crl_tbs ex_crl = Some (tbs, a) /\
-  parse_crl (emit (seq [tbs; a; Prim 0 3 [0; 1; 2]])) = Some f /\
-  length (lf_revoked f) = 2%nat /\ lf_sigalg f = 11 /\ length (lf_exts f) = 1%nat.
+Theorem C05_nonvacuous_crl : wf_crl ex_crl /\ ex_crl_check = true.
 Proof. exact (conj ex_crl_wf ex_crl_builds). Qed.
 Print Assumptions C05_nonvacuous_crl.
 
-Theorem C05_nonvacuous_rl : wf_rl ex_rl /\
-  exists tbs a f, build_rl_tbs ex_rl = Some (tbs, a) /\
-  parse_rl (emit (seq [tbs; a; Prim 0 3 [0; 1; 2]])) = Some f /\
-  map (fun e : rl_pentry => snd (fst e)) (rf_revoked f) = [Some 1%Z; None; None] /\
-  rf_aki f = [1; 2; 3; 4] /\ rf_number f = Some 5%Z.
+Theorem C05_nonvacuous_rl : wf_rl ex_rl /\ ex_rl_check = true.
 Proof. exact (conj ex_rl_wf ex_rl_builds). Qed.
 Print Assumptions C05_nonvacuous_rl.
